@@ -66,6 +66,9 @@ def handle (op : String) (j : Json) : Option (Except String Json) :=
     .ok (J.ofOp (editHamiltonianForSpin tol A (← J.nat (← J.field j "spin_orbital")) (← J.gq (← J.field j "parity"))))
   | "c16.remove_indices" => some do
     .ok (J.ofOp (removeIndices (← J.op (← J.field j "A")) (← J.natList (← J.field j "indices"))))
+  | "c16.scbk_exact" => some do
+    let A ← J.op (← J.field j "A")
+    .ok (Json.bool (scbkExact tol A (← J.nat (← J.field j "n")) (← J.nat (← J.field j "fermions"))))
   | "c16.scbk_reduce" => some do
     let A ← J.op (← J.field j "A")
     .ok (J.ofOp (scbkReduce tol A (← J.nat (← J.field j "n")) (← J.nat (← J.field j "fermions"))))
